@@ -1,7 +1,8 @@
 /-
   Proofs.ToyPrims — the hypothesis structures are satisfiable: a toy primitive
   suite (no security whatsoever) meets `AEAD.Correct`, `AEAD.NonceSep` and
-  `Prims.Correct`, so no theorem assuming them is vacuous.
+  `Prims.Correct`, so no theorem assuming them is vacuous. `AEAD.toy16` / `Prims.toy16`: the same with the
+  16-byte tag of ChaCha20-Poly1305, for the assumption structures that fix the tag length.
 -/
 import AgeModel.Prims
 namespace AgeModel
@@ -65,5 +66,65 @@ theorem Prims.toy_correct : Prims.toy.Correct where
   sha256_len := by intro b; simp [Prims.toy]
   hmac_len := by intro k m; simp [Prims.toy]
   oaep := by intro pub priv _ seed m l c h; simp [Prims.toy] at h ⊢; exact h.symm
+
+/-! the same suite with a 16-byte tag, as the wrappers of the source check for (`Overhead() == 16`) -/
+
+/-- the toy AEAD with a 16-byte tag: the first 12 bytes of the nonce (zero padded), then four zero bytes -/
+def toyTag16 (n : Bytes) : Bytes := toyTag n ++ [0, 0, 0, 0]
+
+def AEAD.toy16 : AEAD where
+  T := 16
+  sealF := fun _ n p => p ++ toyTag16 n
+  openF := fun _ n c =>
+    if 16 ≤ c.length ∧ c.drop (c.length - 16) = toyTag16 n then some (c.take (c.length - 16)) else none
+
+theorem toyTag16_length (n : Bytes) : (toyTag16 n).length = 16 := by
+  unfold toyTag16; rw [List.length_append, toyTag_length]; rfl
+
+theorem toyTag16_inj (n n' : Bytes) (h : n.length = 12) (h' : n'.length = 12) (e : toyTag16 n = toyTag16 n') : n = n' := by
+  unfold toyTag16 at e
+  exact toyTag_inj n n' h h' (List.append_cancel_right e)
+
+theorem AEAD.toy16_correct : AEAD.toy16.Correct where
+  T_pos := by decide
+  seal_len := by intro k n p; simp [AEAD.toy16, toyTag16_length]
+  open_seal := by
+    intro k n p
+    simp only [AEAD.toy16]
+    have hl : (p ++ toyTag16 n).length - 16 = p.length := by rw [List.length_append, toyTag16_length]; omega
+    have h1 : 16 ≤ (p ++ toyTag16 n).length := by rw [List.length_append, toyTag16_length]; omega
+    rw [hl]
+    simp [toyTag16_length]
+  open_unique := by
+    intro k n c p h
+    simp only [AEAD.toy16] at h ⊢
+    split at h
+    · rename_i hc
+      simp only [Option.some.injEq] at h
+      rw [← h, ← hc.2, List.take_append_drop]
+    · simp at h
+
+theorem AEAD.toy16_nonceSep : AEAD.toy16.NonceSep := by
+  intro k n n' p hn hn' hne
+  simp only [AEAD.toy16]
+  have hl : (p ++ toyTag16 n).length - 16 = p.length := by rw [List.length_append, toyTag16_length]; omega
+  rw [hl]
+  have : ¬ (16 ≤ (p ++ toyTag16 n).length ∧ List.drop p.length (p ++ toyTag16 n) = toyTag16 n') := by
+    intro ⟨_, h⟩
+    simp at h
+    exact hne (toyTag16_inj n n' hn hn' h)
+  rw [if_neg this]
+
+/-- `Prims.toy` with the 16-byte-tag AEAD -/
+def Prims.toy16 : Prims := { Prims.toy with aead := AEAD.toy16 }
+
+theorem Prims.toy16_correct : Prims.toy16.Correct where
+  aead := AEAD.toy16_correct
+  dh_comm := by intros; rfl
+  x25519_len := by intro a b c h; simp [Prims.toy16, Prims.toy] at h; subst h; simp
+  sha256_len := by intro b; simp [Prims.toy16, Prims.toy]
+  hmac_len := by intro k m; simp [Prims.toy16, Prims.toy]
+  oaep := by intro pub priv _ seed m l c h; simp [Prims.toy16, Prims.toy] at h ⊢; exact h.symm
+theorem Prims.toy16_T : Prims.toy16.aead.T = 16 := rfl
 
 end AgeModel
